@@ -555,7 +555,7 @@ def builder_support(pkg, maxk):
 def step_arg(pkg, step, kind):
     return {
         'apM': '%sM(s.List[1])' % pkg,
-        'ap': 'any(s.List[1].Int())',
+        'ap': 'stepVal(s.List[1])',
         'apMFunc': '%sSupM(s)' % pkg,
         'apFunc': 'supV(s)',
         'apOpt': 'optO(s.List[1])',
